@@ -4,6 +4,7 @@
     /repo/internal/congestion by the correspondence units "cubic" and "pacer". *)
 From Coq Require Import List ZArith Bool.
 From V Require Import Gen.Params Congestion.Model Congestion.ProofsCut Congestion.ProofsCubic Congestion.ProofsPacer.
+From V Require SentPH.Model SentPH.ProofsAckRules SentPH.ProofsScalars Congestion.ProofsHandler.
 Import ListNotations.
 Open Scope Z_scope.
 
@@ -158,6 +159,23 @@ Theorem C20_cwnd_limited_means : forall s bif, is_cwnd_limited s bif = true ->
 Proof. exact is_cwnd_limited_spec. Qed.
 Print Assumptions C20_cwnd_limited_means.
 
+(** Hybrid slow start: MaybeExitSlowStart never changes the window (nor anything but the
+    slow-start state and ssthresh); when it exits, ssthresh drops to the current window. All RTT oracle values. *)
+Theorem C20_exit_ss_only_lowers_ssthresh : forall s latest minrtt,
+  let s' := step s (ExitSS latest minrtt) in
+  cwnd s' = cwnd s /\ mds s' = mds s /\ ls s' = ls s /\ la s' = la s /\ lc s' = lc s /\ nacked s' = nacked s /\
+  pc s' = pc s /\
+  (ssthresh s' = ssthresh s \/ (ssthresh s' = cwnd s /\ cwnd s < ssthresh s)).
+Proof. exact exit_ss_only_lowers_ssthresh. Qed.
+Print Assumptions C20_exit_ss_only_lowers_ssthresh.
+
+Example C20_exit_ss_nonvacuous :
+  let s := run (new_sender 1280 true 100000000) (repeat (ExitSS 45000000 20000000) 8) in
+  cwnd s = 40960 /\ ssthresh s = 40960 /\ hs_found (hs s) = true /\
+  ssthresh (run (new_sender 1280 true 100000000) (repeat (ExitSS 45000000 20000000) 7)) = cc_maxByteCount.
+Proof. exact exit_ss_example. Qed.
+Print Assumptions C20_exit_ss_nonvacuous.
+
 (** (d) sentPacketHandler.SendMode releases new ack-eliciting data ("any") only while the
     bytes in flight are below the congestion window — and the sender is not
     amplification-limited, tracks fewer packets than both caps, owes no probe packet and
@@ -174,6 +192,34 @@ Example C20_send_gate_nonvacuous : send_mode (G 3 false 0 0 2560 40960 true) = s
 Proof. exact send_gate_nonvacuous. Qed.
 Print Assumptions C20_send_gate_nonvacuous.
 
+(** (d) over every sentPacketHandler history (round 3; cites the C06 unit's handler model and
+    its theorems sendMode_is_gate / send_gate_history = C06_send_mode_is_gate / C06_send_gate_history):
+    in every state the handler can reach from NewSentPacketHandler, its SendMode IS [send_mode]
+    on the gate read from its own state, and whenever that is "any" the bytes in flight are
+    below the window the congestion controller reports, the handler is not amplification-
+    limited, tracks fewer than MaxOutstandingSentPackets packets, owes no probe, the pacer
+    has budget — and whatever packet SentPacket accepts next leaves bytesInFlight < cw + its size. *)
+Theorem C20_send_gate_handler : forall client validated ipn period maxPeriod rnd0 ops cw hb,
+  0 <= ipn ->
+  let st := V.SentPH.Model.run (V.SentPH.Model.init client validated ipn period maxPeriod rnd0) ops in
+  V.SentPH.Model.sendMode st (V.SentPH.Model.sBif st <? cw) hb = send_mode (V.Congestion.ProofsHandler.gate_of st cw hb) /\
+  (send_mode (V.Congestion.ProofsHandler.gate_of st cw hb) = sm_SendAny ->
+   V.SentPH.Model.sBif st < cw /\ V.SentPH.Model.isAmplificationLimited st = false /\
+   V.SentPH.ProofsScalars.tracked_count st < sph_MaxOutstandingSentPackets /\ V.SentPH.Model.sProbes st <= 0 /\ hb = true /\
+   (forall l t la sfs fs size mtu probe rnd orc,
+      V.SentPH.Model.op_valid st (V.SentPH.Model.OSend l t la sfs fs size mtu probe rnd) = true ->
+      V.SentPH.Model.sBif (fst (V.SentPH.Model.step st (V.SentPH.Model.OSend l t la sfs fs size mtu probe rnd, orc))) < cw + size)).
+Proof. exact V.Congestion.ProofsHandler.send_gate_handler. Qed.
+Print Assumptions C20_send_gate_handler.
+
+Example C20_send_gate_handler_nonvacuous :
+  let st := V.SentPH.Model.run (V.SentPH.Model.init false true 0 256 131072 100)
+                [ (V.SentPH.Model.ODrop 1 1000000000, V.SentPH.ProofsAckRules.w_orc); (V.SentPH.Model.ODrop 2 1000000000, V.SentPH.ProofsAckRules.w_orc);
+                  (V.SentPH.Model.OSend 4 1000000000 (-1) [] [1] 1200 false false 0, V.SentPH.ProofsAckRules.w_orc) ] in
+  send_mode (V.Congestion.ProofsHandler.gate_of st 40960 true) = sm_SendAny /\ V.SentPH.Model.sBif st = 1200.
+Proof. exact V.Congestion.ProofsHandler.send_gate_handler_nonvacuous. Qed.
+Print Assumptions C20_send_gate_handler_nonvacuous.
+
 (** (e) Pacer. [PInv]: 0 <= budget < 2^40, 0 < mds <= 2^30; [PT]: last send time in [0,2^62);
     [pop_ok]: send times in (0,2^62), sizes >= 0, bandwidth any uint64 value.
     Budget never exceeds one burst, for every clock value and bandwidth. *)
@@ -189,13 +235,14 @@ Theorem C20_pacer_bound : forall p t size bw r, PInv p -> PT p -> pop_ok (PSent 
 Proof. exact pacer_bound. Qed.
 Print Assumptions C20_pacer_bound.
 
-(** With a monotone clock and bandwidth <= BW throughout: one burst + 1.25 x (BW/8 bytes/s) x elapsed. *)
+(** With a monotone clock and bandwidth <= BW throughout: one burst + 1.25 x (BW/8 bytes/s) x elapsed
+    (the adjusted bandwidth has a floor of 1 byte/s, so that it is never 0). *)
 Theorem C20_pacer_bound_const_rate : forall p t size bw r BW, PInv p -> PT p ->
   pop_ok (PSent t size bw) -> Forall pop_ok r -> Forall (bw_below BW) r ->
   mono (pstep p (PSent t size bw)) r ->
   let T := p_last (prun p (PSent t size bw :: r)) in
   sum_auth p (PSent t size bw :: r) <= max_burst p bw + adj_ideal BW * (T - t) / 1000000000 /\
-  4 * adj_ideal BW <= 5 * (BW / 8).
+  4 * adj_ideal BW <= Z.max (5 * (BW / 8)) 4.
 Proof. exact pacer_bound_const_rate. Qed.
 Print Assumptions C20_pacer_bound_const_rate.
 
@@ -206,11 +253,11 @@ Proof. exact budget_no_overflow. Qed.
 Print Assumptions C20_pacer_no_overflow.
 
 (** … nor in BandwidthFromDelta / adjustedBandwidth for windows below 2^31 bytes and srtt >= 1ns:
-    the pacing rate is floor(floor(cwnd*1e9/srtt) * 5/4) bytes per second. *)
+    the pacing rate is max(floor(floor(cwnd*1e9/srtt) * 5/4), 1) bytes per second. *)
 Theorem C20_bandwidth_no_overflow : forall bytes delta, 0 <= bytes < 2^31 -> 0 < delta < 2^63 ->
   bfd bytes delta = Some (bytes * 1000000000 / delta * 8) /\
   bw_ok (bytes * 1000000000 / delta * 8) /\
-  adj_bw (bytes * 1000000000 / delta * 8) = bytes * 1000000000 / delta * 5 / 4.
+  adj_bw (bytes * 1000000000 / delta * 8) = Z.max (bytes * 1000000000 / delta * 5 / 4) 1.
 Proof. exact bandwidth_no_overflow. Qed.
 Print Assumptions C20_bandwidth_no_overflow.
 
@@ -221,6 +268,40 @@ Theorem C20_pacer_time_until_send : forall p bw T, PInv p -> bw_ok bw -> 0 < p_l
   p_last p + cc_minPacingDelayNs <= T /\ p_mds p <= budget p T bw.
 Proof. exact time_until_send_sufficient. Qed.
 Print Assumptions C20_pacer_time_until_send.
+
+(** TimeUntilSend never divides by zero: the adjusted bandwidth is at least 1 byte/s for every
+    bandwidth estimate (formerly a run-time panic when srtt[s] > cwnd[bytes]). *)
+Theorem C20_time_until_send_total : forall p bw, time_until_send p bw <> None.
+Proof. exact time_until_send_total. Qed.
+Print Assumptions C20_time_until_send_total.
+
+(** No pacing livelock: whenever the gate is closed (Budget now < one datagram), TimeUntilSend
+    answers with a real time >= last send + MinPacingDelay — never 0 = "immediately" — at
+    which the budget covers one datagram. *)
+Theorem C20_gate_closed_then_wait : forall p now bw, PInv p -> bw_ok bw -> 0 <= p_last p < 2^62 ->
+  - 2^63 <= now - p_last p < 2^63 -> budget p now bw < p_mds p ->
+  exists T, time_until_send p bw = Some T /\ T <> 0 /\ p_last p + cc_minPacingDelayNs <= T /\ p_mds p <= budget p T bw.
+Proof. exact gate_closed_then_wait. Qed.
+Print Assumptions C20_gate_closed_then_wait.
+
+(** … and the datagram the pacer speaks about is the sender's, in every history from
+    (new)CubicSender: HasPacingBudget (Budget >= sender size) is exactly "gate open" above. *)
+Theorem C20_pacer_synced : forall m r icw imax srtt0 ops,
+  let s' := run (new_sender_w m r icw imax srtt0) ops in p_mds (pc s') = mds s'.
+Proof. exact pacer_synced. Qed.
+Print Assumptions C20_pacer_synced.
+
+(** Regression for finding cubic/pacing-livelock (sender with 1350-byte datagrams: eight full
+    packets and a 700-byte one used to leave HasPacingBudget false with TimeUntilSend = 0). *)
+Example C20_pacing_livelock_regression :
+  let s8 := run (new_sender 1350 true 100000000)
+               (map (fun i => Sent 1000 i 1350 true 100000000) [0;1;2;3;4;5;6;7] ++ [Sent 1000 8 700 true 100000000]) in
+  p_mds (pc s8) = 1350 /\ p_budget (pc s8) = 2000 /\ step_full s8 (QBudget 1000 100000000) = (s8, 1, false) /\
+  let s9 := step s8 (Sent 1000 9 1350 true 100000000) in
+  p_budget (pc s9) = 650 /\ step_full s9 (QBudget 1000 100000000) = (s9, 0, false) /\
+  exists T, step_full s9 (QTimeUntil 100000000) = (s9, T, false) /\ 1001000 <= T.
+Proof. exact pacing_livelock_regression. Qed.
+Print Assumptions C20_pacing_livelock_regression.
 
 (** The sender's pacer is the pacer model driven with the sender's bandwidth estimate,
     which is always a uint64 value: the pacer theorems apply to every sender history. *)
